@@ -224,7 +224,7 @@ Qed.
 
 Lemma method_path_spec : forall iface d,
   method_path iface d =
-  iface ++ [46] ++ match m_rename d with Some r => r | None => pascal_pass true (m_name d) end.
+  iface ++ [46] ++ match m_rename d with Some r => r | None => pascal_pass true (unraw (m_name d)) end.
 Proof. intros. unfold method_path. destruct (m_rename d); [reflexivity|]. rewrite pascal_eq_pass. reflexivity. Qed.
 
 Theorem plain_is_spec : forall iface d args,
